@@ -7,7 +7,7 @@
 From Coq Require Import NArith ZArith List Bool String.
 From Pq Require Import Base.Bytes Thrift.Varint Thrift.Compact Thrift.Idl Thrift.IdlPinned
   Impl.CThrift Impl.CThriftSpec Impl.CThriftTyped Proofs.CThriftTypedProofs Proofs.CompactProofs Proofs.CThriftProofs Proofs.CThriftRead
-  Proofs.CThriftRoundtrip Proofs.CThriftMain Proofs.CThriftReser.
+  Proofs.CThriftRoundtrip Proofs.CThriftMain Proofs.CThriftReser Proofs.CThriftTotal.
 Import ListNotations.
 Open Scope list_scope.
 Open Scope N_scope.
@@ -45,12 +45,15 @@ Print Assumptions C10_typed_conformance.
    the pinned tree, see the refuted theorems).  For every object in `dom` - every key that carries a
    value is in 1..13, no floats, byte strings and lists shorter than 2^31, lists homogeneous (ints in C int
    range, str, or dicts), dict nesting up to 63 - with ANY number of fields, list elements (row groups,
-   columns, key-values) and ANY string lengths: if the serialisation fits the buffer, to_bytes returns it
-   completely and read_thrift of it is an object that ThriftObject.__eq__ (dict_eq) considers equal. *)
-Theorem C10_roundtrip_partial : forall cap v bs,
-  dom 63 v = true -> ser v = Some bs -> len bs <= cap ->
-  to_bytes cap v = OBytes bs /\ exists v', from_buffer bs = Some (v', []) /\ obj_eq v v' = true.
-Proof. intros cap v bs Hd Hs Hc. split; [exact (to_bytes_fits cap v bs Hs Hc)|exact (roundtrip v bs Hd Hs)]. Qed.
+   columns, key-values) and ANY string lengths: the serialiser does not raise; if the serialisation fits the
+   buffer, to_bytes returns it completely; and read_thrift of it is an object that ThriftObject.__eq__
+   (dict_eq) considers equal. *)
+Theorem C10_roundtrip_partial : forall a b c,
+  dom 63 (PDict a b c) = true ->
+  exists bs, ser (PDict a b c) = Some bs /\
+    (forall cap, len bs <= cap -> to_bytes cap (PDict a b c) = OBytes bs) /\
+    exists v', from_buffer bs = Some (v', []) /\ obj_eq (PDict a b c) v' = true.
+Proof. exact roundtrip_total. Qed.
 Print Assumptions C10_roundtrip_partial.
 
 (* read_thrift/read_list parse the SPECIFICATION's encoding of every value tree in the class they handle
